@@ -36,7 +36,27 @@ fn gen_base(rng: &mut Rng) -> Base {
         1 => format!("<-[{rel}]-"),
         _ => format!("-[{rel}]-"),
     };
-    match rng.below(9) {
+    // inline property maps in the pattern: they are compiled into the same predicate map as
+    // top-level equality conjuncts of the WHERE that follows
+    let inline = |rng: &mut Rng| match rng.below(3) {
+        0 => format!(" {{k: {}}}", rng.range(0, 3)),
+        1 => format!(" {{name: '{}'}}", rng.pick(&["a", "ab", "b"])),
+        _ => format!(" {{k: {}, name: '{}'}}", rng.range(0, 3), rng.pick(&["a", "ab"])),
+    };
+    match rng.below(12) {
+        9 => {
+            let p = inline(rng);
+            Base { text: format!("MATCH (n{p})"), attach: " WHERE ", ret: "id(n) AS a".into(), node_vars: vec!["n"], rel_vars: vec![], num_vars: vec![], kind: "inline-properties-scan" }
+        }
+        10 => {
+            let (p, d) = (inline(rng), dir(rng, "r"));
+            Base { text: format!("MATCH (n:{l}{p}){d}(m)"), attach: " WHERE ", ret: "id(n) AS a, type(r) AS t, id(m) AS b".into(), node_vars: vec!["n", "m"], rel_vars: vec!["r"], num_vars: vec![], kind: "inline-properties-expand" }
+        }
+        11 => {
+            let rk = rng.range(0, 3);
+            let (p, d) = (inline(rng), dir(rng, &format!("r {{k: {rk}}}")));
+            Base { text: format!("MATCH (n){d}(m{p})"), attach: " WHERE ", ret: "id(n) AS a, id(m) AS b".into(), node_vars: vec!["n", "m"], rel_vars: vec!["r"], num_vars: vec![], kind: "inline-properties-on-target-and-relationship" }
+        }
         0 => Base { text: "MATCH (n)".into(), attach: " WHERE ", ret: "id(n) AS a".into(), node_vars: vec!["n"], rel_vars: vec![], num_vars: vec![], kind: "node-scan" },
         1 => Base { text: format!("MATCH (n:{l})"), attach: " WHERE ", ret: "id(n) AS a".into(), node_vars: vec!["n"], rel_vars: vec![], num_vars: vec![], kind: "label-scan" },
         2 => {
@@ -149,6 +169,17 @@ impl PGen<'_> {
     }
 
     fn boolean(&mut self, depth: u32) -> String {
+        // top-level `alias.key = literal` (optionally AND ...) is the shape the compiler pushes
+        // down into scans and index seeks: generated often
+        if depth == 0 && self.rng.chance(1, 4) && let Some(v) = self.node() {
+            self.kinds.insert("pushed-down-equality");
+            let eq = match self.rng.below(3) {
+                0 => format!("{v}.k = {}", self.rng.range(0, 3)),
+                1 => format!("{v}.name = '{}'", self.rng.pick(&["a", "ab", "b", "Bob"])),
+                _ => format!("{} = {v}.k", self.rng.range(0, 3)),
+            };
+            return if self.rng.chance(1, 2) { eq } else { format!("{eq} AND {}", self.boolean(2)) };
+        }
         let choice = self.rng.below(if depth > 2 { 8 } else { 17 });
         match choice {
             0 | 1 => {
